@@ -386,7 +386,7 @@ class VmControlData(TlbScheme):
 
     @classmethod
     def deserialize(cls, cell_slice: Slice) -> "VmControlData":
-        kwargs = {}
+        kwargs = {'nargs': None, 'stack': None, 'cp': None}  # absent Maybe fields, as serialize() expects them
         is_nargs = cell_slice.load_bit()
         if is_nargs:
             kwargs['nargs'] = cell_slice.load_uint(13)
